@@ -347,6 +347,7 @@ class InputSpec:
     vout: int
     value: int
     out_point: OutPoint
+    proof: Any = None  # tr-tree, script path: (leaf, commands, script, control block), computed once
 
     @property
     def script_pub_key(self) -> bytes:
@@ -392,6 +393,16 @@ class Ceremony:
                 return spec
         return None
 
+    def planned_leaf(self, spec: InputSpec) -> tuple[Leaf, list[Any], bytes, bytes]:
+        """(leaf, its commands, its script, its control block) of a tr-tree input's plan, from the wallet's own tree."""
+        if spec.proof is None:
+            assert spec.path.leaf is not None
+            leaf = spec.wallet.leaves()[spec.path.leaf]
+            key = internal_key(spec.wallet, self.cosigners, spec.index)
+            commands, control = taproot.input_script_sig(b"\x02" + key, script_tree(spec.wallet, self.cosigners, spec.index), spec.path.leaf)
+            spec.proof = (leaf, commands, taproot.serialize(commands), control)
+        return spec.proof
+
     # -- SolutionSizer: what the planned spend of an input will push -----------------
     def sizer(self, psbt_in: PsbtIn, tx_in: TxIn) -> list[int] | None:
         spec = self.spec_of(tx_in.prev_out)
@@ -400,11 +411,8 @@ class Ceremony:
         sig = 64 + (1 if psbt_in.sig_hash_type else 0)
         if spec.path.leaf is None:
             return [sig]
-        leaf = spec.wallet.leaves()[spec.path.leaf]
-        script = taproot.serialize(leaf_script(spec.wallet, self.cosigners, leaf, spec.index))
-        control = next(cb for cb, (s, _) in psbt_in.taproot_leaf_scripts.items() if s == script)
-        stack = [sig] if leaf.kind == "pk" else [sig] * leaf.k + [0] * (len(leaf.keys) - leaf.k)
-        return [*stack, len(script), len(control)]
+        leaf, _, script, control = self.planned_leaf(spec)
+        return [*[sig] * leaf.k, *[0] * (len(leaf.keys) - leaf.k), len(script), len(control)]
 
     # -- InputSolver: the planned taproot leaf; wsh(miniscript) is the library's own -----
     def solver(self, psbt: Psbt, vin_i: int) -> tuple[bytes, Witness] | None:
@@ -414,15 +422,12 @@ class Ceremony:
             return miniscript_solver(psbt, vin_i)
         if spec.path.leaf is None:
             return None  # key path: the generic finalizer prefers it
-        leaf = spec.wallet.leaves()[spec.path.leaf]
-        commands = leaf_script(spec.wallet, self.cosigners, leaf, spec.index)
-        script = taproot.serialize(commands)
-        control = next(cb for cb, (s, _) in psbt_in.taproot_leaf_scripts.items() if s == script)
+        leaf, commands, script, control = self.planned_leaf(spec)
         lh = taproot.leaf_hash(TAPSCRIPT, script)
         sigs = psbt_in.taproot_script_spend_signatures
         stack: list[bytes] = []
         used = 0
-        for x in [c for c in commands if isinstance(c, bytes)]:  # script order
+        for x in [c for c in commands if isinstance(c, bytes)]:  # one element per key, in script order
             sig = sigs.get(x + lh)
             if sig is None or used == leaf.k:
                 stack.append(b"")
